@@ -49,6 +49,21 @@ def identity_histories(r, thorough):
     return cases
 
 
+def exclusive_stage(thorough, violations, stats):
+    """several threads IDENTIFY (register exclusively) under one name at the same instant, round after round, on the real
+    c2s::Router: exactly one wins each round (supporting evidence for what no single-threaded history can reach)"""
+    from common import run_harness
+    cases = [{"exclusive": True, "threads": th, "rounds": (200000 if thorough else 30000)} for th in (2, 4)]
+    obs, out = run_harness("router", cases, "debug", tag="c07ex", timeout=900)
+    if obs is None:
+        violations.append((PROP, "exclusive-registration contention run crashed or hung: " + out[-300:], cases[0], 0))
+        return
+    stats["exclusive_registration_rounds"] = sum(c["rounds"] for c in cases)
+    for c, o in zip(cases, obs):
+        if o["bad_rounds"] or not o["threads_ok"]:
+            violations.append((PROP, f"{o['threads']} threads registering the same name exclusively at the same instant: in {o['bad_rounds']} of {o['rounds']} rounds the name was not given to exactly one of them", c, 0))
+
+
 def run(tier, replay=None):
-    return srvprops.run(PROP, THEOREMS, tier, replay, extra_gen=lambda r, th: identity_histories(r, th) + sl.stalled_drop_histories(r, th) + sl.retry_identify_histories(r, th),
+    return srvprops.run(PROP, THEOREMS, tier, replay, extra_stage=exclusive_stage, extra_gen=lambda r, th: identity_histories(r, th) + sl.stalled_drop_histories(r, th) + sl.retry_identify_histories(r, th),
                         rule_note="plus retried-IDENTIFY histories (refused under a name in use, then identified under a free name: the acknowledged identity is the new one); plus identity histories: IDENTIFY with usernames over Unicode whitespace / alphanumeric / punctuation / emoji / zero-width code points, padding, lengths around 256 bytes, name re-use after hang-up, and after a connection that ended through the write-error path (stalled peer vanishing)")
